@@ -10,6 +10,7 @@ import (
 
 	"github.com/johannesboyne/gofakes3"
 	"github.com/johannesboyne/gofakes3/internal/s3io"
+	"github.com/johannesboyne/gofakes3/internal/verifhook"
 	bolt "go.etcd.io/bbolt"
 	"gopkg.in/mgo.v2/bson"
 )
@@ -365,6 +366,8 @@ func (db *Backend) PutObject(
 
 	mod := db.timeSource.Now()
 	hash := md5.Sum(bts)
+	verifhook.At("bolt.put.before-update")
+	defer verifhook.At("bolt.put.after-update")
 
 	return result, db.bolt.Update(func(tx *bolt.Tx) error {
 		b := db.s3Bucket(tx, bucketName)
